@@ -11,7 +11,9 @@ RULE = ("(a) random operation sequences (request / setResult sct|err / groupComp
         "non-trivial = distinct scenario/operation lines whose answer is not an error class")
 TRUSTED = ["testing/synctest virtual clock (go1.24.1, GOEXPERIMENT=synctest)", "Go race detector (supporting evidence only)",
            "extract/k_policy.go lock walker: the (field, read/write, lock mode) table is what the go/ast walk sees"]
-ASSUMPTIONS = ["LogPolicyData keys equal the groups' Name fields and are distinct", "a submission session lists distinct members of its group (GetSubmissionSession)",
+ASSUMPTIONS = ["LogPolicyData keys equal the groups' Name fields and are distinct (WF.names_nodup)",
+               "a submission session lists distinct members of its group (WF.session_sub, WF.session_nodup; checked on the real GetSubmissionSession in the ctpolicy harness)",
+               "'the chain verifies against the merged root pool' is modelled as membership of the chain's root in the union of the known root sets (x509 path building trusted)",
                "Submitter.SubmitToLog returns when its context is cancelled"]
 
 def is_nontrivial(op, impl):
